@@ -82,6 +82,10 @@ def wrap(text: str, w: str, k: int) -> str:
     return "(" + text + ")"
 
 
+def _whole_line(pname: str) -> bool:
+    return pname == "adjacent-zids" or pname.startswith("special:")
+
+
 def build_line(prefix: str, seq, wrapper: str) -> str:
     """prefix + 'see' + targets separated by plain words."""
     direct = prefix.endswith("\x01")
@@ -151,9 +155,15 @@ def _env(ctx):
         specs.append(("ref", "", [t], "bare"))
     # a non-primary ZID directly after the primary one (no word in between)
     specs.append(("adjacent-zids", f"- {PRIMARY} 240105#R2 tail", [], "bare"))
+    # whole lines with the PROMPT they must be answered with: a bare ZID right after a link word of a
+    # new item (the compiler gives that item a ZID of its own, so this one is a reference), and two
+    # bare ZIDs at the start of a continuation line
+    specs.append(("special:link-then-zid", "- [[p]] 240105#R2 tail", "PROMPT [[p]] 240105#R2", "bare"))
+    specs.append(("special:gid-then-zid", "o P1 [#gid] 240105#R2 tail", "PROMPT [#gid] 240105#R2", "bare"))
+    specs.append(("special:two-zids-on-a-continuation-line", "  240105#R2 240104#R1 are related", "PROMPT 240105#R2 240104#R1", "bare"))
     lines = []
     for pname, ptxt, seq, w in specs:
-        lines.append(build_line(ptxt, seq, w) if pname != "adjacent-zids" else ptxt)
+        lines.append(build_line(ptxt, seq, w) if not _whole_line(pname) else ptxt)
     # U+2028 / form feed / vertical tab are not line breaks of a page
     header = "# CUR page \u2028 with \x0c odd \x0b separators\n\n"
     # the page the lines are on also holds notes whose three-character ZIDs BEGIN with the
@@ -233,6 +243,10 @@ def _run_case(ctx, case) -> F.Outcome:
     if bad:
         problems.append(("non-protocol-output", {"lines": bad}))
     zd = env["zd"]
+    if pname.startswith("special:"):
+        if got_out != seq + "\n" or got_code != 0:
+            problems.append(("targets-of-the-line-not-offered:" + pname[8:], {"expected": seq, "stdout": got_out, "exit": got_code}))
+        return _finish(out, case, env, got_out, got_code, problems)
     if pname == "adjacent-zids":
         # the second ZID is not the primary one, so it is a target
         if not got_out.startswith(_edit(zd, env["owners"], "240105#R2")):
@@ -301,7 +315,7 @@ def _finish(out, case, env, got_out, got_code, problems):
     if len(seq) >= 1 or pname == "adjacent-zids":
         out.nontrivial = H.digest(case)
     if problems:
-        line = build_line(ptxt, seq, w) if pname != "adjacent-zids" else ptxt
+        line = build_line(ptxt, seq, w) if not _whole_line(pname) else ptxt
         out.ok = False
         out.sig = problems[0][0]
         out.detail = {"file": "zoq/cur.zoq" if is_zoq else "cur.zo", "line": line, "option": opt,
@@ -316,7 +330,7 @@ def _cases(ctx):
         for is_zoq in (False, True):
             if pname in ("ref",) and is_zoq:
                 continue
-            if pname == "adjacent-zids":
+            if _whole_line(pname):
                 if not is_zoq:
                     cases.append([si, False, None])
                 continue
@@ -335,7 +349,7 @@ def _sample(ctx, case):
     env = _env(ctx)
     pname, ptxt, seq, w = env["specs"][case[0]]
     return {"file": "zoq/cur.zoq" if case[1] else "cur.zo",
-            "line": build_line(ptxt, seq, w) if pname != "adjacent-zids" else ptxt, "option_index": case[2]}
+            "line": build_line(ptxt, seq, w) if not _whole_line(pname) else ptxt, "option_index": case[2]}
 
 
 def run(ctx: F.Ctx):
